@@ -68,21 +68,22 @@ func FuncKeys(pkgs []*packages.Package) []string {
 	return out
 }
 
-func readBaseline(path string) (map[string]bool, error) {
+func readBaseline(path string) (*Baseline, error) {
 	f, err := os.Open(path)
 	if err != nil {
 		return nil, err
 	}
 	defer f.Close()
-	out := map[string]bool{}
+	var lines []string
 	sc := bufio.NewScanner(f)
+	sc.Buffer(make([]byte, 1<<20), 1<<24)
 	for sc.Scan() {
 		l := strings.TrimSpace(sc.Text())
 		if l != "" && !strings.HasPrefix(l, "#") {
-			out[l] = true
+			lines = append(lines, l)
 		}
 	}
-	return out, sc.Err()
+	return parseBaseline(lines), sc.Err()
 }
 
 // InlineNewHelpers computes the overlay and a log of what was done.
@@ -104,11 +105,26 @@ func InlineNewHelpers(dir, baselineFile string, env []string) (map[string][]byte
 		keys []string
 		msgs []string
 	}
+	inlinedInto := map[string]bool{} // new helpers at least one call of which was inlined (only those are pruned when unreferenced)
 	serialFile := map[string]bool{} // files where a multi-edit round failed: one edit per round from then on
 	var lastEdits []edit
+	focus := map[string]bool{} // import paths of the packages with new helpers
+	var renamePrev map[string][]byte
+	var renameMsgs []string
+	renameFailed := false
+	_ = renameFailed
 	for round := 0; round < 40; round++ {
 		cfg := &packages.Config{Mode: mode, Dir: dir, Env: env, Tests: false, Overlay: overlay}
-		pkgs, err := packages.Load(cfg, "./...")
+		// after the first full load only the packages that contain new helpers (inlining is package-local) are reloaded
+		patterns := []string{"./..."}
+		if len(focus) > 0 {
+			patterns = patterns[:0]
+			for p := range focus {
+				patterns = append(patterns, p)
+			}
+			sort.Strings(patterns)
+		}
+		pkgs, err := packages.Load(cfg, patterns...)
 		if err != nil {
 			return nil, log, fmt.Errorf("inline pre-pass: %v", err)
 		}
@@ -123,6 +139,42 @@ func InlineNewHelpers(dir, baselineFile string, env []string) (map[string][]byte
 					bad[f] = true
 				}
 			}
+		}
+		// round 0: restore baseline names of renamed fields and functions
+		if round == 0 && len(bad) == 0 && !renameFailed {
+			if rs := findRenames(pkgs, base); len(rs) > 0 {
+				ch := applyRenames(pkgs, rs, overlay)
+				renamePrev = map[string][]byte{}
+				for f, nc := range ch {
+					if prev, had := overlay[f]; had {
+						renamePrev[f] = prev
+					} else {
+						renamePrev[f] = nil
+					}
+					overlay[f] = nc
+				}
+				for _, e := range rs {
+					renameMsgs = append(renameMsgs, e.what)
+				}
+				continue
+			}
+		}
+		if round == 1 && renamePrev != nil {
+			if len(bad) > 0 {
+				for f, prev := range renamePrev {
+					if prev == nil {
+						delete(overlay, f)
+					} else {
+						overlay[f] = prev
+					}
+				}
+				log = append(log, "renames detected but restoring the baseline names did not type-check: left as they are")
+				renamePrev = nil
+				renameFailed = true
+				continue
+			}
+			log = append(log, renameMsgs...)
+			renamePrev = nil
 		}
 		reverted := false
 		for _, e := range lastEdits {
@@ -160,7 +212,7 @@ func InlineNewHelpers(dir, baselineFile string, env []string) (map[string][]byte
 					if !ok || fd.Body == nil || fd.Name.IsExported() || fd.Name.Name == "init" || fd.Name.Name == "main" {
 						continue
 					}
-					if base[FuncKey(pk.PkgPath, recvOf(fd), fd.Name.Name)] {
+					if base.HasFunc(FuncKey(pk.PkgPath, recvOf(fd), fd.Name.Name)) {
 						continue
 					}
 					if obj := pk.TypesInfo.Defs[fd.Name]; obj != nil {
@@ -173,6 +225,11 @@ func InlineNewHelpers(dir, baselineFile string, env []string) (map[string][]byte
 		}
 		if len(newFn) == 0 {
 			break
+		}
+		if len(focus) == 0 && renamePrev == nil {
+			for obj := range newFn {
+				focus[declPkg[obj].PkgPath] = true
+			}
 		}
 		progress := false
 		for _, pk := range pkgs {
@@ -210,14 +267,15 @@ func InlineNewHelpers(dir, baselineFile string, env []string) (map[string][]byte
 						break
 					}
 					// a new helper that nothing refers to any more is removed, so that the rules do not analyse it out of context
-					if obj := pk.TypesInfo.Defs[fd.Name]; obj != nil && newFn[obj] != nil && !used[obj] {
+					if obj := pk.TypesInfo.Defs[fd.Name]; obj != nil && newFn[obj] != nil && !used[obj] && inlinedInto[FuncKey(pk.PkgPath, recvOf(fd), fd.Name.Name)] {
 						key := fname + ":prune:" + FuncKey(pk.PkgPath, recvOf(fd), fd.Name.Name)
 						if !skip[key] {
 							st := fd.Pos()
 							if fd.Doc != nil {
 								st = fd.Doc.Pos()
 							}
-							sps = append(sps, &splice{pk.Fset.Position(st).Offset, pk.Fset.Position(fd.End()).Offset, ""})
+							so, eo := pk.Fset.Position(st).Offset, pk.Fset.Position(fd.End()).Offset
+							sps = append(sps, &splice{so, eo, strings.Repeat("\n", bytes.Count(content[so:eo], []byte("\n"))), nil})
 							msgs = append(msgs, fmt.Sprintf("%s: new helper %s has no remaining callers and is left out of the analysis", rel, fd.Name.Name))
 							keys = append(keys, key)
 						}
@@ -249,6 +307,7 @@ func InlineNewHelpers(dir, baselineFile string, env []string) (map[string][]byte
 							return true
 						}
 						sps = append(sps, sp)
+						inlinedInto[FuncKey(pk.PkgPath, recvOf(newFn[obj]), obj.Name())] = true
 						msgs = append(msgs, fmt.Sprintf("%s: call of new helper %s inlined into %s", rel, obj.Name(), fd.Name.Name))
 						keys = append(keys, key)
 						done = true
@@ -257,6 +316,31 @@ func InlineNewHelpers(dir, baselineFile string, env []string) (map[string][]byte
 				}
 				if len(sps) == 0 {
 					continue
+				}
+				// imports the inlined bodies need: appended to the line of the last import declaration (no line shift)
+				need := map[string]string{}
+				for _, sp := range sps {
+					for n, p := range sp.imports {
+						need[n] = p
+					}
+				}
+				if len(need) > 0 {
+					at := pk.Fset.Position(f.Name.End()).Offset
+					for _, d := range f.Decls {
+						if gd, ok := d.(*ast.GenDecl); ok && gd.Tok == token.IMPORT {
+							at = pk.Fset.Position(gd.End()).Offset
+						}
+					}
+					var names []string
+					for n := range need {
+						names = append(names, n)
+					}
+					sort.Strings(names)
+					txt := ""
+					for _, n := range names {
+						txt += fmt.Sprintf("; import %s %q", n, need[n])
+					}
+					sps = append([]*splice{{at, at, txt, nil}}, sps...)
 				}
 				// apply from the end of the file backwards (the splices are in distinct declarations)
 				nc := append([]byte(nil), content...)
@@ -359,8 +443,6 @@ func inlineOne(pk *packages.Package, file *ast.File, parents map[ast.Node]ast.No
 			}
 		case *ast.FuncLit:
 			// returns inside literals belong to the literal: handled by not descending when rewriting
-		case *ast.LabeledStmt:
-			reason = "helper has labels"
 		case *ast.BranchStmt:
 			if x.Tok == token.GOTO {
 				reason = "helper uses goto"
@@ -443,7 +525,22 @@ func inlineOne(pk *packages.Package, file *ast.File, parents map[ast.Node]ast.No
 		}
 	}
 	if !okCtx {
-		return nil, "call is nested inside a larger expression"
+		// nested in a larger expression: still hoistable when the call is the first thing with side effects that the
+		// statement evaluates, unconditionally and exactly once
+		if why := hoistable(info, parents, stmt, call); why != "" {
+			return nil, "call is nested inside a larger expression: " + why
+		}
+		if nres != 1 {
+			return nil, "multi-value call nested inside a larger expression"
+		}
+		if ifs, ok := stmt.(*ast.IfStmt); ok {
+			host = ifs
+		}
+		switch parents[host].(type) {
+		case *ast.BlockStmt, *ast.CaseClause, *ast.CommClause:
+		default:
+			return nil, "statement is not in a statement list"
+		}
 	}
 	if nres == 0 {
 		if _, ok := stmt.(*ast.ExprStmt); !ok {
@@ -456,6 +553,7 @@ func inlineOne(pk *packages.Package, file *ast.File, parents map[ast.Node]ast.No
 		return nil, "no scope at call site"
 	}
 	capture := ""
+	needImports := map[string]string{}
 	ast.Inspect(callee.Body, func(n ast.Node) bool {
 		id, ok := n.(*ast.Ident)
 		if !ok || capture != "" {
@@ -472,6 +570,11 @@ func inlineOne(pk *packages.Package, file *ast.File, parents map[ast.Node]ast.No
 			return true
 		}
 		_, at := callScope.LookupParent(id.Name, call.Pos())
+		if at == nil && isPkgName {
+			// the helper lives in a file with an import the caller's file lacks: the overlay adds it
+			needImports[id.Name] = obj.(*types.PkgName).Imported().Path()
+			return true
+		}
 		if at == nil {
 			capture = "identifier " + id.Name + " is not visible at the call site"
 			return true
@@ -633,23 +736,23 @@ func inlineOne(pk *packages.Package, file *ast.File, parents map[ast.Node]ast.No
 	hostText := string(content[off(host.Pos()):off(host.End())])
 	cs, ce := off(call.Pos())-off(host.Pos()), off(call.End())-off(host.Pos())
 	var newStmt string
-	if _, isExpr := stmt.(*ast.ExprStmt); isExpr && host == stmt {
-		newStmt = ""
-		for _, rn := range resNames {
-			newStmt += "_ = " + rn + "\n"
-		}
-	} else {
-		newStmt = hostText[:cs] + repl + hostText[ce:]
-		for _, rn := range resNames {
-			newStmt = "_ = " + rn + "\n" + newStmt
-		}
+	for _, rn := range resNames {
+		b.WriteString("_ = " + rn + "\n")
 	}
-	return &splice{off(host.Pos()), off(host.End()), b.String() + newStmt}, ""
+	// a //line directive re-synchronises positions, so that reports keep pointing at the lines of the real file
+	hp, he := fset.Position(host.Pos()), fset.Position(host.End())
+	if es, isExpr := stmt.(*ast.ExprStmt); isExpr && host == stmt && es.X == call {
+		newStmt = fmt.Sprintf("//line %s:%d\n", hp.Filename, he.Line) + ";"
+	} else {
+		newStmt = fmt.Sprintf("//line %s:%d\n", hp.Filename, hp.Line) + hostText[:cs] + repl + hostText[ce:]
+	}
+	return &splice{off(host.Pos()), off(host.End()), b.String() + newStmt, needImports}, ""
 }
 
 type splice struct {
 	start, end int
 	text       string
+	imports    map[string]string // name -> path to add to the file's imports
 }
 
 func lhsSimple(lhs []ast.Expr) bool {
@@ -756,9 +859,17 @@ func rewriteReturns(fset *token.FileSet, body *ast.BlockStmt, res, named []strin
 			n.Body = rewrite(x.Body)
 			return &n
 		case *ast.LabeledStmt:
+			// labels are function-scoped: give the copy its own name
 			n := *x
+			n.Label = ast.NewIdent(x.Label.Name + "_" + label)
 			n.Stmt = rewriteStmt(x.Stmt)
 			return &n
+		case *ast.BranchStmt:
+			if x.Label != nil {
+				n := *x
+				n.Label = ast.NewIdent(x.Label.Name + "_" + label)
+				return &n
+			}
 		}
 		return s
 	}
@@ -781,4 +892,85 @@ func rewriteReturns(fset *token.FileSet, body *ast.BlockStmt, res, named []strin
 		buf.WriteString("\n")
 	}
 	return buf.String(), ""
+}
+
+// hoistable: may the value of call be computed just before stmt instead of inside it?  Returns "" or the reason not.
+func hoistable(info *types.Info, parents map[ast.Node]ast.Node, stmt ast.Stmt, call *ast.CallExpr) string {
+	var root ast.Node
+	switch s := stmt.(type) {
+	case *ast.ExprStmt, *ast.ReturnStmt, *ast.DeclStmt, *ast.SendStmt:
+		root = s
+	case *ast.AssignStmt:
+		if s.Tok != token.ASSIGN && s.Tok != token.DEFINE {
+			return "compound assignment"
+		}
+		root = s
+	case *ast.IfStmt:
+		if s.Init != nil {
+			return "if statement with an init clause"
+		}
+		root = s.Cond
+	case *ast.SwitchStmt:
+		if s.Init != nil || s.Tag == nil {
+			return "switch with an init clause"
+		}
+		root = s.Tag
+	case *ast.RangeStmt:
+		root = s.X
+	default:
+		return "statement kind"
+	}
+	anc := map[ast.Node]bool{}
+	inRoot := false
+	for p := ast.Node(call); p != nil; p = parents[p] {
+		anc[p] = true
+		if p == root {
+			inRoot = true
+			break
+		}
+		switch x := parents[p].(type) {
+		case *ast.BinaryExpr:
+			if (x.Op == token.LAND || x.Op == token.LOR) && x.Y == p {
+				return "evaluated conditionally (right operand of && or ||)"
+			}
+		case *ast.FuncLit:
+			return "inside a function literal"
+		}
+	}
+	if !inRoot {
+		return "not in the evaluated part of the statement"
+	}
+	why := ""
+	ast.Inspect(root, func(n ast.Node) bool {
+		if n == nil || why != "" {
+			return false
+		}
+		if _, isLit := n.(*ast.FuncLit); isLit {
+			return false
+		}
+		if anc[n] {
+			return true
+		}
+		if n.Pos() >= call.Pos() {
+			return false // evaluated after the call (lexical order)
+		}
+		switch x := n.(type) {
+		case *ast.CallExpr:
+			if tv, ok := info.Types[x.Fun]; ok && tv.IsType() {
+				return true // conversion
+			}
+			if id, ok := x.Fun.(*ast.Ident); ok {
+				if _, isB := info.Uses[id].(*types.Builtin); isB && (id.Name == "len" || id.Name == "cap") {
+					return true
+				}
+			}
+			why = "another call is evaluated first"
+		case *ast.UnaryExpr:
+			if x.Op == token.ARROW {
+				why = "a channel receive is evaluated first"
+			}
+		}
+		return true
+	})
+	return why
 }
